@@ -97,6 +97,7 @@ def parseInstr : Toks → Option (Instr × Toks)
     | _, _, _ => none
   | "Return" :: r => some (.ret, r)
   | "Include" :: b :: r => some (.include_ (b == "1"), r)
+  | "CallBlock" :: h :: r => (unhexAscii h).map (fun s => (.callBlock s, r))
   | "BuildMap" :: n :: r => n.toNat?.map (fun n => (.buildMap n, r))
   | "Add" :: r => some (.arith .add, r)
   | "Sub" :: r => some (.arith .sub, r)
@@ -160,8 +161,10 @@ def parseProg (ctx : List (String × V)) (toks : Toks) : Option (St × Prog) :=
   | "C" :: "@" :: "F" :: f :: "P" :: k :: r => match k.toNat? with
     | some k => match parseCodes k r [] with
       | some codes =>
+        let named := (codes.zipIdx.drop 1).map (fun p => (p.1.1, p.2))
         let prog : Prog := { codes := (codes.map (·.2)).toArray,
-                             templates := (codes.zipIdx.drop 1).map (fun p => (p.1.1, p.2)) }
+                             templates := named.filter (fun p => !p.1.startsWith "@"),
+                             blocks := (named.filter (fun p => p.1.startsWith "@")).map (fun p => ((p.1.drop 1).toString, p.2)) }
         some ({ ctx := ctx, formatter := f.toNat?.getD 0 }, prog)
       | none => none
     | none => none
